@@ -27,6 +27,9 @@ type Step struct {
 //	tcp_reset       same, but the proxy closes every socket with RST and stops listening
 //	no_ack          gRPC client that reads its stream but never acknowledges
 //	slow_apply      real replication.Replica whose applier sleeps SleepMs before every entry
+//	tcp_stall_quiet real replica manager behind the proxy, blackholed right after its session was registered and
+//	                BEFORE the first write: clause 2 is judged first (nothing is outstanding, so only the
+//	                heartbeat timeout can detect the silent peer), then the workload runs
 //	none            no faulty replica (baseline for the latency oracle)
 type Fault struct {
 	Class     string `json:"class"`
@@ -59,20 +62,22 @@ var faultFlag = map[string]string{
 	"tcp_reset":      "abrupt_disconnect",
 	"no_ack":         "missing_ack",
 	"slow_apply":     "slow_apply",
+	// tcp_stall_quiet has no flag of its own: with empty heartbeat messages on it
+	// belongs to the stalled_tcp family (see genCase)
 }
 
 func genCase(t *rapid.T) Case {
 	var c Case
 	c.Keys = gen.Keys(t, 6, 24)
 	nk := len(c.Keys)
-	classes := []string{"stalled_reader", "stalled_reader", "tcp_stall", "tcp_stall", "tcp_reset", "no_ack", "slow_apply", "none"}
+	classes := []string{"stalled_reader", "stalled_reader", "tcp_stall", "tcp_stall", "tcp_reset", "tcp_reset", "no_ack", "no_ack", "slow_apply", "slow_apply", "tcp_stall_quiet", "tcp_stall_quiet", "none"}
 	cls := rapid.SampledFrom(classes).Draw(t, "fault")
 	if f := faultFlag[cls]; f != "" && !ev.Flag(f) {
 		ev.R().Exclude(f)
 		// redirect to the classes that are still allowed
 		allowed := []string{"none"}
-		for _, alt := range []string{"tcp_reset", "tcp_reset", "no_ack", "no_ack", "slow_apply", "slow_apply", "tcp_stall", "tcp_stall", "stalled_reader", "stalled_reader"} {
-			if ev.Flag(faultFlag[alt]) {
+		for _, alt := range []string{"tcp_reset", "tcp_reset", "no_ack", "no_ack", "slow_apply", "slow_apply", "tcp_stall", "tcp_stall", "stalled_reader", "stalled_reader", "tcp_stall_quiet", "tcp_stall_quiet"} {
+			if faultFlag[alt] == "" || ev.Flag(faultFlag[alt]) {
 				allowed = append(allowed, alt)
 			}
 		}
@@ -129,12 +134,29 @@ func genCase(t *rapid.T) Case {
 		}
 		if cls == "slow_apply" {
 			c.Fault.SleepMs = rapid.SampledFrom([]int{5, 20, 100}).Draw(t, "sleepms")
+			if c.Fault.SleepMs > 20 && !ev.Flag("stalled_reader") {
+				// same open finding as the stalled reader: while the applier works through a
+				// batch (up to 100 entries x sleep) the replica does not read, the stream's
+				// flow-control window fills and the primary's Put waits (measured: 6.2 s at 100 ms)
+				ev.R().Exclude("stalled_reader")
+				c.Fault.SleepMs = 20
+			}
 		}
 	}
 	c.Healthy = rapid.IntRange(0, 2).Draw(t, "healthy")
 	c.HB.IntervalMs = rapid.SampledFrom([]int{100, 200, 500}).Draw(t, "hbint")
 	c.HB.TimeoutMs = rapid.SampledFrom([]int{1000, 1000, 2000}).Draw(t, "hbto")
 	c.HB.SendEmpty = rapid.IntRange(0, 3).Draw(t, "hbempty") != 0
+	if cls == "tcp_stall_quiet" {
+		c.Fault.AttachAt, c.Fault.TriggerAt = 0, 0
+		c.HB.SendEmpty = rapid.Bool().Draw(t, "hbempty_quiet")
+		if c.HB.SendEmpty && !ev.Flag("stalled_tcp") {
+			// open finding: empty heartbeats that still fit into the flow-control window of a
+			// blackholed connection refresh the session's last-activity time, so it is not dropped
+			ev.R().Exclude("stalled_tcp")
+			c.HB.SendEmpty = false
+		}
+	}
 	c.Reader = rapid.IntRange(0, 3).Draw(t, "reader") != 0
 	return c
 }
